@@ -32,13 +32,16 @@ func NewLineConf(conf LineConfig) core.Schedule {
 // RPS(x) = a * x + b // Line RPS schedule.
 // Number of shots from 0 to x = integral(RPS) from 0 to x = (a*x^2)/2 + b*x
 // Has shoot i. When it should be? i = (a*x^2)/2 + b*x => x = (sqrt(2*a*i + b^2) - b) / a
+// That is computed as x = 2*i / (sqrt(2*a*i + b^2) + b): the same value, but without the
+// subtraction of two nearly equal numbers, which loses all precision when the line is nearly flat.
 func lineDoAt(a, b float64) func(i int64) time.Duration {
 	// Some common calculations.
 	twoA := 2 * a
 	bSquare := b * b
-	bilionDivA := 1e9 / a
 	return func(i int64) time.Duration {
-		//return time.Duration((math.Sqrt(2*a*float64(i)+b*b) - b) * 1e9 / a)
-		return time.Duration((math.Sqrt(twoA*float64(i)+bSquare) - b) * bilionDivA)
+		if i == 0 {
+			return 0
+		}
+		return time.Duration(2e9 * float64(i) / (math.Sqrt(twoA*float64(i)+bSquare) + b))
 	}
 }
